@@ -7,5 +7,7 @@ mkdir -p .cache evidence
 ( cd coq && coq_makefile -f _CoqProject -o Makefile >/dev/null && timeout 2400 make -j16 >/dev/null )
 ( cd ocaml && coqc -Q ../coq/theories MST ../coq/extract/Extract.v >/dev/null && ocamlfind ocamlopt -O3 -w -a mstmodel.mli mstmodel.ml driver.ml -o model )
 cp /repo/Cargo.lock harness/Cargo.lock
-( cd harness && CARGO_TARGET_DIR=../.cache/target cargo build --offline && CARGO_TARGET_DIR=../.cache/target cargo build --offline --release ) >/dev/null 2>&1
+( cd harness && CARGO_TARGET_DIR=../.cache/target cargo build --offline && CARGO_TARGET_DIR=../.cache/target cargo build --offline --release \
+  && CARGO_TARGET_DIR=../.cache/target-nofeat cargo build --offline --no-default-features \
+  && CARGO_TARGET_DIR=../.cache/target-mst-all cargo build --offline --no-default-features --features mst-all ) >/dev/null 2>&1
 echo setup-ok
